@@ -42,7 +42,7 @@ func (c18) ID() string { return "C18" }
 func (c18) Plan(tier string) fw.Plan {
 	p := fw.Plan{
 		Batches: 8, Cases: 25, Race: true, TimeoutSec: 1500, Level: "fault_enumeration", Exhaustive: true,
-		Rule: "part 1 (crash points, exhaustive per scenario): 8 scenarios of fsstore writes (put of a new key with and without an existing shard directory, put of an existing key, put-stream with several chunked writes then commit, abandoned stream, commit with the zero key, second put after a first, put-vec) run in a child whose main thread is traced by strace; a clean run yields the scenario's sequence of file-system syscalls, then for EVERY syscall of that sequence the scenario is re-run and killed (SIGKILL injected by strace before that syscall executes); a fresh verifier process then opens the directory with a new Store and checks: every key absent or complete, every regular file outside .temp complete for the key its name decodes to, Init succeeds, new puts of the crashed key and of a fresh key succeed. Part 2 (fault sequences): the same enumeration with error injection (ENOSPC, EIO, EACCES, …) on every syscall: success ⇒ key complete, error ⇒ absent or complete, store usable. Part 3 (schedules, race build): concurrent histories of writers (same/different keys, put and chunked put-stream) and readers on one Store; every operation recorded at the client boundary; per-key histories checked with porcupine against a write-once register; any read returning something other than not-found or the complete content is a violation; race detector reports are violations. exhaustive=true refers to crash/error points per scenario. Non-trivial: a crash point after the first byte was written / a history in which a read overlapped a write; distinct by (scenario, syscall index, fault) and by history hash.",
+		Rule:        "part 1 (crash points, exhaustive per scenario): 8 scenarios of fsstore writes (put of a new key with and without an existing shard directory, put of an existing key, put-stream with several chunked writes then commit, abandoned stream, commit with the zero key, second put after a first, put-vec) run in a child whose main thread is traced by strace; a clean run yields the scenario's sequence of file-system syscalls, then for EVERY syscall of that sequence the scenario is re-run and killed (SIGKILL injected by strace before that syscall executes); a fresh verifier process then opens the directory with a new Store and checks: every key absent or complete, every regular file outside .temp complete for the key its name decodes to, Init succeeds, new puts of the crashed key and of a fresh key succeed. Part 2 (fault sequences): the same enumeration with error injection (ENOSPC, EIO, EACCES, …) on every syscall: success ⇒ key complete, error ⇒ absent or complete, store usable. Part 3 (schedules, race build): concurrent histories of writers (same/different keys, put and chunked put-stream) and readers on one Store; every operation recorded at the client boundary; per-key histories checked with porcupine against a write-once register; any read returning something other than not-found or the complete content is a violation; race detector reports are violations. exhaustive=true refers to crash/error points per scenario. Non-trivial: a crash point after the first byte was written / a history in which a read overlapped a write; distinct by (scenario, syscall index, fault) and by history hash.",
 		Assumptions: []string{"strace signal/error injection is the crash and fault model (process death between two syscalls; no power-loss / page-cache model)", "porcupine checker timeouts are inconclusive"},
 		MinEvents:   []string{"scenarios", "crash_points_enumerated", "error_injections", "verifier_runs", "distinct_post_crash_states", "concurrent_histories", "porcupine_ok", "reads_overlapping_writes"},
 	}
@@ -353,7 +353,7 @@ type c18Sys struct {
 	line    string
 }
 
-var c18TraceSet = "openat,open,creat,write,pwrite64,writev,close,rename,renameat,renameat2,mkdir,mkdirat,unlink,unlinkat,newfstatat,fstat,fsync,fdatasync,ftruncate,link,linkat,symlinkat"
+var c18TraceSet = "openat,open,creat,write,pwrite64,writev,close,rename,renameat,renameat2,mkdir,mkdirat,unlink,unlinkat,newfstatat,fstat,fsync,fdatasync,ftruncate,link,linkat,symlinkat,copy_file_range,sendfile,splice,fallocate,fchmod,fchmodat,utimensat"
 
 var c18LineRe = regexp.MustCompile(`^(\d+)\s+([a-z0-9_]+)\(`)
 
@@ -426,7 +426,12 @@ func (c18) Orchestrate(p *fw.Parent) error {
 			dir := filepath.Join(root, fmt.Sprintf("r-%s-%d", label, idx))
 			c18CopyDir(setup, dir)
 			resf := dir + ".results"
-			args := []string{"-f", "-qq", "-o", "/dev/null", "-e", "trace=" + s.name, "-e", "inject=" + s.name + ":" + inject + ":when=" + strconv.Itoa(s.ordinal),
+			traceOut, traceSet := "/dev/null", s.name
+			if !strings.HasPrefix(inject, "signal") {
+				traceOut, traceSet = dir+".strace", c18TraceSet+",stat" // what the process does AFTER the fault is enumerated below
+				defer os.Remove(dir + ".strace")
+			}
+			args := []string{"-f", "-qq", "-o", traceOut, "-e", "trace=" + traceSet, "-e", "inject=" + s.name + ":" + inject + ":when=" + strconv.Itoa(s.ordinal),
 				self, "-aux", "fschild", "run", scn, dir, resf}
 			c := exec.Command("strace", args...)
 			done := make(chan struct{})
@@ -467,13 +472,77 @@ func (c18) Orchestrate(p *fw.Parent) error {
 			}
 			os.RemoveAll(dir)
 			os.Remove(resf)
+			// fault THEN crash: where the fault sends the process down another path (cleanup, a fallback),
+			// every syscall of that path is a crash point too
+			if strings.HasPrefix(inject, "signal") {
+				return
+			}
+			fseq, ferr := c18ParseTrace(dir + ".strace")
+			if ferr != nil || len(fseq) <= idx {
+				return
+			}
+			same := len(fseq) == len(seq)
+			for j := idx + 1; same && j < len(fseq); j++ {
+				same = fseq[j].name == seq[j].name
+			}
+			if same {
+				return
+			}
+			for j := idx + 1; j < len(fseq); j++ {
+				s2 := fseq[j]
+				if s2.name == s.name {
+					p.Count("fault_then_crash_skipped_same_syscall", 1)
+					continue // strace takes one injection per syscall name
+				}
+				dir2 := filepath.Join(root, fmt.Sprintf("r-%s-%d-then-kill-%d", label, idx, j))
+				c18CopyDir(setup, dir2)
+				args2 := []string{"-f", "-qq", "-o", "/dev/null", "-e", "trace=" + s.name + "," + s2.name,
+					"-e", "inject=" + s.name + ":" + inject + ":when=" + strconv.Itoa(s.ordinal),
+					"-e", "inject=" + s2.name + ":signal=KILL:when=" + strconv.Itoa(s2.ordinal),
+					self, "-aux", "fschild", "run", scn, dir2, dir2 + ".results"}
+				c2 := exec.Command("strace", args2...)
+				done2 := make(chan struct{})
+				go func() { c2.CombinedOutput(); close(done2) }()
+				select {
+				case <-done2:
+				case <-time.After(60 * time.Second):
+					c2.Process.Kill()
+					<-done2
+					p.AddInconclusive(fmt.Sprintf("scenario %s %s at syscall %d then kill at %d: watchdog", scn, label, idx, j))
+					os.RemoveAll(dir2)
+					continue
+				}
+				v2, err := verdict(dir2, "-")
+				os.Remove(dir2 + ".results")
+				p.Count("fault_then_crash_points", 1)
+				p.Count("verifier_runs", 1)
+				if err != nil {
+					p.AddInconclusive(fmt.Sprintf("scenario %s %s at syscall %d then kill at %d: verifier failed to run: %v", scn, label, idx, j, err))
+					os.RemoveAll(dir2)
+					continue
+				}
+				p.AddEvaluations(1)
+				p.Seen(fw.HashString(fmt.Sprintf("%s|%d|%s|%d", scn, idx, label, j)), true)
+				mu.Lock()
+				states[scn+"|"+v2.State] = struct{}{}
+				mu.Unlock()
+				if len(v2.Problems) > 0 {
+					p.AddDeviation(fw.Deviation{Sig: "C18:not-atomic-after-fault-then-crash:" + scn + ":" + s.name, Detail: fmt.Sprintf("scenario %s, %s injected at syscall #%d (%s), then SIGKILL before syscall #%d of the path the process took after the fault (%s): %s\n  directory afterwards: %s", scn, inject, idx, s.name, j, clipS(s2.line, 200), strings.Join(v2.Problems, "; "), v2.State),
+						Batch: 9000 + si, Index: -1, Case: json.RawMessage(fmt.Sprintf(`{"scenario":%q,"syscall_index":%d,"syscall":%q,"inject":%q,"then_kill_before":%d}`, scn, idx, s.name, inject, j))})
+				}
+				os.RemoveAll(dir2)
+			}
 		}
 		for idx, s := range seq {
 			wg.Add(1)
 			sem <- struct{}{}
 			p.Count("crash_points_enumerated", 1)
 			go run(idx, s, "signal=KILL", "kill")
-			for _, en := range errnos {
+			ens := errnos
+			if p.Tier != "thorough" && strings.HasPrefix(s.name, "rename") {
+				ens = append(append([]string{}, errnos...), "EEXIST", "ENOENT") // what rename itself is documented to say
+			}
+			for _, en := range ens {
 				if s.name == "close" && en != "EIO" {
 					continue
 				}
@@ -653,7 +722,188 @@ var c18Model = porcupine.Model{
 	Equal: func(a, b any) bool { return a.(bool) == b.(bool) },
 }
 
+// c18CountdownCtx is a context that reports cancellation from its n-th Err()/Done() consultation on:
+// "cancelled midway" at a deterministic point of whatever loop consults it.
+type c18CountdownCtx struct {
+	n     int64
+	calls int64
+}
+
+func (c *c18CountdownCtx) hit() bool                   { return atomic.AddInt64(&c.calls, 1) >= c.n }
+func (c *c18CountdownCtx) Deadline() (time.Time, bool) { return time.Time{}, false }
+func (c *c18CountdownCtx) Value(any) any               { return nil }
+func (c *c18CountdownCtx) Err() error {
+	if c.hit() {
+		return context.Canceled
+	}
+	return nil
+}
+func (c *c18CountdownCtx) Done() <-chan struct{} {
+	ch := make(chan struct{})
+	if c.hit() {
+		close(ch)
+	}
+	return ch
+}
+
+// c18Second: two further families of the schedules part. (A) keys that are given two different complete
+// contents of different lengths by alternating writers: a read must return one of them in full ("never a
+// partial or mixed block"); (B) puts and streaming writes under a context that is cancelled midway — at the
+// n-th time anything consults it, for n = 1..16, and from another goroutine at a PRNG-drawn moment: success
+// means the key is complete, an error means it is absent or complete.
+func c18Second(c *fw.Ctx, rng *fw.RNG) {
+	dir, err := os.MkdirTemp("", "verif-c18b-")
+	if err != nil {
+		c.Inconclusive(err.Error())
+		return
+	}
+	defer os.RemoveAll(dir)
+	st, err := c18Open(dir)
+	if err != nil {
+		c.Inconclusive(err.Error())
+		return
+	}
+	bg := context.Background()
+	c.SetCase(func() any { return map[string]any{"family": "two-content keys and cancelled puts"} })
+	// ---- (A)
+	keys := []string{"m0-aa", "m1-aa"}
+	contents := map[string][2][]byte{}
+	for _, k := range keys {
+		contents[k] = [2][]byte{c18Content(k + "/short"), bytes.Repeat(c18Content(k+"/long"), 9+rng.Intn(8))}
+	}
+	var wg sync.WaitGroup
+	var mu sync.Mutex
+	var bad []string
+	var reads, hits int64
+	stop := int64(0)
+	for w := 0; w < 2; w++ {
+		wg.Add(1)
+		go func(w int) {
+			defer wg.Done()
+			for n := 0; n < 40; n++ {
+				k := keys[(n+w)%len(keys)]
+				content := contents[k][(n/2+w)%2]
+				if n%3 == 0 {
+					wr, commit, err := st.PutStream(bg)
+					if err != nil {
+						continue
+					}
+					half := len(content) / 2
+					wr.Write(content[:half])
+					runtime.Gosched()
+					wr.Write(content[half:])
+					commit(k)
+				} else {
+					st.Put(bg, k, content)
+				}
+			}
+			atomic.AddInt64(&stop, 1)
+		}(w)
+	}
+	for r := 0; r < 4; r++ {
+		wg.Add(1)
+		go func(r int) {
+			defer wg.Done()
+			for n := 0; atomic.LoadInt64(&stop) < 2 && n < 4000; n++ {
+				k := keys[(n+r)%len(keys)]
+				var got []byte
+				var err error
+				if (n+r)%2 == 0 {
+					got, err = st.Get(bg, k)
+				} else {
+					var rc io.ReadCloser
+					if rc, err = st.GetStream(bg, k); err == nil {
+						got, err = io.ReadAll(rc)
+						rc.Close()
+					}
+				}
+				atomic.AddInt64(&reads, 1)
+				if err != nil {
+					if !os.IsNotExist(err) {
+						mu.Lock()
+						bad = append(bad, fmt.Sprintf("key %q: read error %v", k, err))
+						mu.Unlock()
+					}
+					continue
+				}
+				atomic.AddInt64(&hits, 1)
+				if !bytes.Equal(got, contents[k][0]) && !bytes.Equal(got, contents[k][1]) {
+					mu.Lock()
+					bad = append(bad, fmt.Sprintf("key %q: read %d bytes that are neither of the two complete contents (%d and %d bytes)", k, len(got), len(contents[k][0]), len(contents[k][1])))
+					mu.Unlock()
+				}
+			}
+		}(r)
+	}
+	wg.Wait()
+	c.Count("two_content_histories", 1)
+	c.Count("two_content_reads", reads)
+	c.Count("two_content_reads_of_a_block", hits)
+	if len(bad) > 0 {
+		c.Deviate("C18:partial-or-mixed-read:two-content-key", fmt.Sprintf("%d of %d reads, e.g. %s", len(bad), reads, bad[0]))
+	}
+	// ---- (B)
+	judge := func(what, k string, want []byte, perr error) {
+		got, gerr := st.Get(bg, k)
+		c.Count("cancelled_puts", 1)
+		switch {
+		case gerr == nil && bytes.Equal(got, want):
+			c.Count("cancelled_put_key_complete", 1)
+		case gerr != nil && os.IsNotExist(gerr) && perr != nil:
+			c.Count("cancelled_put_key_absent", 1)
+		case gerr != nil && os.IsNotExist(gerr):
+			c.Deviate("C18:cancelled-put:success-but-absent", fmt.Sprintf("%s returned nil but the key is absent", what))
+		default:
+			c.Deviate("C18:cancelled-put:partial-block", fmt.Sprintf("%s (returned %v): afterwards Get gives %d bytes, err %v; the complete content is %d bytes", what, perr, len(got), gerr, len(want)))
+		}
+	}
+	big := bytes.Repeat(c18Content("cancel"), 2500) // ≈ 1 MiB
+	for n := int64(1); n <= 16; n++ {
+		k := fmt.Sprintf("cancel-put-%d", n)
+		perr := st.Put(&c18CountdownCtx{n: n}, k, big)
+		judge(fmt.Sprintf("Put under a context cancelled at its %d-th consultation", n), k, big, perr)
+		k = fmt.Sprintf("cancel-stream-%d", n)
+		cctx := &c18CountdownCtx{n: n}
+		wr, commit, err := st.PutStream(cctx)
+		if err != nil {
+			continue
+		}
+		var werr error
+		for lo := 0; lo < len(big) && werr == nil; lo += 100000 {
+			hi := lo + 100000
+			if hi > len(big) {
+				hi = len(big)
+			}
+			_, werr = wr.Write(big[lo:hi])
+		}
+		if werr != nil {
+			commit("")
+			judge("a stream whose Write failed under a cancelled context", k, big, werr)
+			continue
+		}
+		judge(fmt.Sprintf("PutStream+commit under a context cancelled at its %d-th consultation", n), k, big, commit(k))
+	}
+	for t := 0; t < 6; t++ {
+		k := fmt.Sprintf("cancel-async-%d", t)
+		ctx, cancel := context.WithCancel(bg)
+		spin := rng.Intn(20000)
+		go func() {
+			for q := 0; q < spin; q++ {
+				runtime.Gosched()
+			}
+			cancel()
+		}()
+		perr := st.Put(ctx, k, big)
+		cancel()
+		judge("Put cancelled from another goroutine", k, big, perr)
+	}
+}
+
 func (c18) RunCase(c *fw.Ctx, rng *fw.RNG, batch, i int) {
+	if i%5 == 4 {
+		c18Second(c, rng)
+		return
+	}
 	dir, err := os.MkdirTemp("", "verif-c18-")
 	if err != nil {
 		c.Inconclusive(err.Error())
@@ -781,7 +1031,9 @@ func (c18) RunCase(c *fw.Ctx, rng *fw.RNG, batch, i int) {
 	c.Count("concurrent_histories", 1)
 	c.Count("history_ops", int64(len(ops)))
 	c.Count("reads_overlapping_writes", overlap)
-	c.SetCase(func() any { return map[string]any{"family": "concurrent history", "writers": nw, "readers": nr, "keys": keys, "ops": len(ops)} })
+	c.SetCase(func() any {
+		return map[string]any{"family": "concurrent history", "writers": nw, "readers": nr, "keys": keys, "ops": len(ops)}
+	})
 	hh := uint64(len(ops))
 	for _, o := range ops {
 		out := o.Output.(c18Out)
